@@ -187,6 +187,7 @@ class Body:
         self.wrapper = "fragment"
         self.constructs: list[dict] = []
         self.epub_only = False
+        self.literal = None         # text that must come out literally (a fragment's bare last words with a plain '&')
         self.want_ref = False       # always compare with the reference document (else: a seeded share, see checks/c17.py)
 
     def render(self, benign: bool = False, strip: bool = False) -> str:
@@ -594,8 +595,13 @@ def _tail(b: _B, kind: str) -> list:
     raise ValueError(kind)
 
 
+# A fragment may end in bare text (no closing tag, no newline) whose last words hold a literal '&' followed by letters:
+# an html.parser with convert_charrefs keeps such text back until the end of the input.  {t} is the visible token.
+AMP_TAILS = ("{t} R&D", "Ask the {t} R&D", "{t} AT&T", "{t} a&b", "R&D/{t}", "x&y={t}", "{t} Q&A")
+
+
 def make_body(rng, specs: list[dict], *, wrapper: str | None = None, fillers: int | None = None,
-              risky: str | None = None, tail_spec: dict | None = None) -> Body:
+              risky: str | None = None, tail_spec: dict | None = None, bare_tail: str | None = None) -> Body:
     """Build one body.  ``specs``: list of dicts with keys name, position (+ optional kind/attr/case/close/variant).
 
     If ``risky`` is set, exactly one spec must carry ``"risky": True``; its kind is forced to the risky form.
@@ -604,6 +610,8 @@ def make_body(rng, specs: list[dict], *, wrapper: str | None = None, fillers: in
     """
     tail_spec = tail_spec or {}
     b = _B(rng, rng.randrange(0, 90000))
+    if bare_tail:
+        wrapper = "fragment"
     wrapper = wrapper or rng.choice(WRAPPERS)
     if any(s["position"] == "head" for s in specs) and wrapper == "body-only":
         wrapper = "full"
@@ -645,6 +653,13 @@ def make_body(rng, specs: list[dict], *, wrapper: str | None = None, fillers: in
     for _ in range(rng.randint(0, fillers)):
         body += _filler_fixed(b)
         body.append("\n")
+    if bare_tail:
+        assert risky is None and not head
+        while body and body[-1] == "\n":
+            body.pop()
+        b.f("end:bare-text-with-ampersand")
+        b.body.literal = bare_tail.format(t=b.vis())
+        body.append(("\n" if rng.random() < 0.5 else " ") + b.body.literal)
     trunc = None
     if risky == "unterminated-trailing-construct":
         n_risky += 1
@@ -805,6 +820,18 @@ def quiet_fragments(rng, n: int):
         yield b
 
 
+def systematic_bare_tails(rng):
+    """Fragments that end in bare text with a literal '&', behind every kind of removed element (reference: without it)."""
+    for i, name in enumerate(NAMES):
+        for j, tail in enumerate(AMP_TAILS):
+            pos = NONTABLE_POSITIONS[(5 * i + 3 * j) % len(NONTABLE_POSITIONS)]
+            if pos == "head":
+                pos = "doc-end"
+            b = make_body(rng, [{"name": name, "position": pos}], bare_tail=tail, fillers=(i + j) % 2)
+            b.want_ref = j % 2 == 0
+            yield b
+
+
 def systematic_epub_only(rng):
     for name in NORMAL + RAWTEXT:
         for pos in ("body-level", "p-inline", "td-last", "head", "li"):
@@ -852,6 +879,9 @@ def random_clean(rng, n: int):
         k = rng.choice((1, 2, 2, 3, 4))
         specs = [{"name": rng.choice(NAMES), "position": rng.choice(POSITIONS)} for _ in range(k)]
         if sum(1 for s in specs if s["position"] == "head") > 1:
+            continue
+        if rng.random() < 0.06 and not any(s["position"] == "head" for s in specs):
+            yield make_body(rng, specs, bare_tail=rng.choice(AMP_TAILS))
             continue
         yield make_body(rng, specs)
 
